@@ -27,6 +27,7 @@ Implementation: Thin wrapper around Orchestrator with enhanced configuration han
 from pathlib import Path
 
 from src.core.types import Violation
+from src.linter_config.ignore import IgnoreDirectiveParser
 from src.linter_config.loader import LinterConfigLoader
 from src.orchestrator.core import Orchestrator
 
@@ -61,6 +62,17 @@ class Linter:
         config_path = self._resolve_config_path(config_file)
         self.config = self.config_loader.load(config_path)
         self.orchestrator = Orchestrator(project_root=self.project_root, config=self.config)
+        if config_file:
+            self._apply_config_ignore_list()
+
+    def _apply_config_ignore_list(self) -> None:
+        """Honour the top-level ignore list of an explicitly given config file (as --config does)."""
+        patterns = self.config.get("ignore")
+        if not isinstance(patterns, list):
+            return
+        parser = IgnoreDirectiveParser(self.project_root)
+        parser.repo_patterns = [str(pattern) for pattern in patterns]
+        self.orchestrator.ignore_parser = parser
 
     def _resolve_config_path(self, config_file: str | Path | None) -> Path:
         """Resolve configuration file path."""
